@@ -112,6 +112,29 @@ def unary_wrapped_groupings():
     return out
 
 
+CASE_TWINS = ["2x + 3X", "x * X", "x^2 + X^2", "4 + 2x + 6X", "(x + X) * x", "x - X + X", "3x * 2X", "X + x + X", "2x + 3X = 12", "x * X = 4",
+              "x + X = 3", "2X = 4 + x"]
+
+
+def sign_twins():
+    """the same large magnitude with both signs, in this order (negative first), then the other way round with
+    another variable: anything remembered per magnitude shows"""
+    out = []
+    for m in ("10000", "20000", "12345.5", "65536", "1000003"):
+        out += [f"-{m}x + 5x", f"{m}x + 5x", f"-{m} + 50000", f"{m} + 50000"]
+    for m in ("30000", "17.25", "40000"):
+        out += [f"{m}y + 5y", f"-{m}y + 5y", f"4 + {m}k + -{m}k"]
+    return out
+
+
+def product_equations():
+    """left- and right-grouped products of coefficient terms on one side of an equation"""
+    out = []
+    for g in same_op_groupings(3, ["a", "2u", "3u", "u^2"], ("*",)):
+        out += [f"{g} = 12", f"12 = {g}"]
+    return out
+
+
 def deep_chains():
     """five- and six-term same-operator groupings over tiny alphabets: nesting depth up to 5 for the chained
     classifiers (a group nested three or more levels deep)"""
